@@ -573,6 +573,13 @@ class History:
         l = SLoop(c, "", names[:-1])
         c.loops.append(l)
         self.lhs.append((l, h))
+        if self.r.random() < 0.5:
+            # a REJECTED packet for the still-empty scalar loop first (an item of no loop at the first / last position): the valid
+            # calls that follow must behave as if it had never been made (row counter included)
+            li = len(self.lhs) - 1
+            bad = [name_tok("_zz9", True)] + self.value()
+            good = [name_tok(names[0], True)] + self.value()
+            self.op("addpkt", li, 2, *((bad + good) if self.r.random() < 0.5 else (good + bad)))
         self.op("setval", h, name_tok(names[-1], True), *self.value())
         l.names[norm(names[-1])] = names[-1]
         l.npk = 1
